@@ -134,7 +134,8 @@ class SearchKey(Parseable[bytes]):
 
     def __eq__(self, other: Any) -> bool:
         if isinstance(other, SearchKey):
-            return hash(self) == hash(other)
+            return (self.value, self.filter, self.inverse) \
+                == (other.value, other.filter, other.inverse)
         return super().__eq__(other)
 
     def __ne__(self, other: Any) -> bool:
